@@ -52,6 +52,8 @@ type Server struct {
 
 	hook   func(q *QueryLog, d *Directives)
 	mutate func(q *QueryLog, reply []byte) []byte
+	// QUICMaxStreams limits the concurrent streams a DoQ client may open per connection (0 = 65536).
+	QUICMaxStreams int64
 	// KeepRaw stores the wire bytes of every query in the log.
 	KeepRaw bool
 
@@ -516,7 +518,11 @@ func (s *Server) ListenQUIC(addr string, cfg *tls.Config) error {
 	cfg = cfg.Clone()
 	cfg.NextProtos = []string{"doq"}
 	tr := &quic.Transport{Conn: pc}
-	l, err := tr.Listen(cfg, &quic.Config{MaxIdleTimeout: 60 * time.Second, MaxIncomingStreams: 1 << 16})
+	maxStreams := s.QUICMaxStreams
+	if maxStreams <= 0 {
+		maxStreams = 1 << 16
+	}
+	l, err := tr.Listen(cfg, &quic.Config{MaxIdleTimeout: 60 * time.Second, MaxIncomingStreams: maxStreams})
 	if err != nil {
 		pc.Close()
 		return err
